@@ -460,6 +460,11 @@ func newLiveCase(sc liveScenario, frontEnd string, compare bool) *liveCase {
 	switch sc.Type {
 	case "asa":
 		lc.Cli = &sim.Spec{Type: "asa", Config: sc.Device["config"], PostBanner: marker, NeedEnable: true, EnablePass: true}
+		if sc.Name == "group+move" {
+			// This device still needs the session set-up commands
+			// (terminal pager 0, terminal width 511).
+			lc.Cli.PagerOn, lc.Cli.Width80 = true, true
+		}
 	case "ios":
 		lc.Cli = &sim.Spec{Type: "ios", Config: sc.Device["config"], PostBanner: "banner motd " + marker, NeedEnable: true, Modified: true}
 	case "linux":
